@@ -142,8 +142,7 @@ func (k *checker) faulty() {
 	countFile := func(i, nrows int) {
 		recs, _ := tgt.Files[i].records(tag, nrows)
 		recordsBefore += len(recs)
-		for j, r := range recs {
-			_ = j
+		for _, r := range recs {
 			labelsBefore += len(r.labels) + metaLabels + nameLabelCount(strings.Fields(strings.TrimPrefix(r.line, "Benchmark"))[0])
 			if tgt.Files[i].Name != "" {
 				labelsBefore++
@@ -705,7 +704,8 @@ func representatives() []Case {
 
 // TestC20EnumTrunc enumerates truncation offsets of the representative
 // uploads: every offset with every delivery mode in the thorough tier; every
-// 7th offset plus all offsets near a boundary or line end in the quick tier.
+// 7th offset (one delivery mode) plus all offsets near a boundary or line end
+// (clean end and read error) in the quick tier.
 func TestC20EnumTrunc(t *testing.T) {
 	shard, nshards := vcase.Shard()
 	thorough := vcase.Thorough()
@@ -726,7 +726,7 @@ func TestC20EnumTrunc(t *testing.T) {
 						cuts = append(cuts, "tcp-close")
 					}
 				case hot[off]:
-					cuts = []string{[]string{"eof", "uerr"}[off%2]}
+					cuts = []string{"eof", "uerr"}
 					if off%16 == 0 {
 						cuts = append(cuts, "tcp-half")
 					}
